@@ -547,7 +547,7 @@ def validate(run, subdir, module, constants, segments, clauses, plans=None, max_
         chunk_events = max(400, sum(len(s) for s in segments) // 14 + 1)
     # TLC cannot handle behaviours of 65536 or more states once its queue spills to disk: keep every trace file well below that
     # (validators with silent steps take several states per trace line)
-    chunk_events = min(chunk_events, 25000)
+    chunk_events = min(chunk_events, 12000)
     chunks, cur, n = [], [], 0
     for i, s in enumerate(segments):
         if cur and n + len(s) > chunk_events:
